@@ -36,7 +36,9 @@ META = {
     "real stft wrapper. Every output sample is compared with the double sum "
     "out[n] = sum_k g*w[n-kh]*B_k[n-kh] evaluated in exact rationals with g "
     "computed from its definition (exact == on dyadic inputs when g is a "
-    "power of two, explicit 1e-12 relative bound otherwise); the output "
+    "power of two, explicit 1e-12 relative bound otherwise; a separate "
+    "family of non-dyadic Fraction and > 2**53 integer samples, with "
+    "Fraction windows, must come out as exactly the sum); the output "
     "length is compared with m*h+size-h. Recording stages observe what the "
     "wrapper feeds to the user function (window times block, documented "
     "stage order, size argument), a spy observes the keywords and blocks the "
